@@ -441,8 +441,11 @@ func (c *stepCheck) checkStop(hung bool) {
 				// already relabelled the running nodes: a node without a blocking dependency can only have
 				// become "canceled" that way, i.e. it was running (launched) when the stop came
 				launchedBefore = true
+				// (blocking = canceled, or failed without continueOn.failure; a skipped dependency makes its
+				// dependents skipped, not canceled)
 				for _, dn := range spec.Depends {
-					if l := c.statusAtStop[dn]; l == "failed" || l == "canceled" || l == "skipped" {
+					l, ds := c.statusAtStop[dn], d.Step(dn)
+					if l == "canceled" || (l == "failed" && (ds == nil || !ds.ContFail)) {
 						launchedBefore = false
 					}
 				}
@@ -593,6 +596,25 @@ func (c *stepCheck) checkStop(hung bool) {
 			}
 			if anyActive && onlyRepeatActive {
 				disc += "/only-repeating-steps-active"
+			}
+			if anyActive && !onlyRepeatActive && !c.racedLaunch && got == "finished" {
+				// every step that was alive at the stop ended by itself, successfully, before the stop signal
+				// had been sent to it, and nothing was left to start: the scheduler then calls the run a success
+				unsignalled := true
+				for _, r := range c.truth.Runs {
+					if !isHandler(r.Name) && (r.EndSeq == 0 || r.Code != 0 || r.Signaled != "" || len(r.Signals) > 0) {
+						unsignalled = false
+					}
+				}
+				if unsignalled {
+					disc += "/all-steps-completed-before-any-signal"
+				}
+			}
+			if !anyActive && c.racedLaunch {
+				// no step process was alive at the stop: the steps that ended after it were started by
+				// workers that had passed their last cancel check (start-after-stop/worker-already-launched),
+				// ran unsignalled to their end, and the run then counts as complete
+				disc += "/after-raced-launch"
 			}
 			c.viol("C05", "stopped-run-outcome", disc, "run stopped while steps were running is reported %q (step states when the stop took effect: %v)", got, c.statusAtStop)
 		}
